@@ -178,6 +178,7 @@ func runC16(c *core.Ctx) {
 				cs.Fail("runlength/reencode", core.W{"word": fmt.Sprintf("%04x", w), "reencoded": mon.Hex(out, 4), "error": errStr(err)})
 				return
 			}
+			scribbleOwned(out)
 			v := rtcp.RunLengthChunk{Type: 0, PacketStatusSymbol: w >> 13 & 3, RunLength: w & 0x1FFF}
 			o2, err2 := v.Marshal()
 			var d2 rtcp.RunLengthChunk
@@ -185,6 +186,7 @@ func runC16(c *core.Ctx) {
 				cs.Fail("runlength/value-roundtrip", core.W{"value": vdump(v), "octets": mon.Hex(o2, 4)})
 				return
 			}
+			scribbleOwned(o2)
 			// status vector: canonical word has T=1
 			vw := 0x8000 | w
 			vb := []byte{byte(vw >> 8), byte(vw)}
@@ -215,6 +217,7 @@ func runC16(c *core.Ctx) {
 				cs.Fail("vector/reencode", core.W{"word": fmt.Sprintf("%04x", vw), "reencoded": mon.Hex(vo, 4), "error": errStr(verr)})
 				return
 			}
+			scribbleOwned(vo)
 			if err := reuse.Unmarshal(vb); err != nil || reuse.Type != sv.Type || reuse.SymbolSize != sv.SymbolSize || !mon.SemEqual(reuse.SymbolList, sv.SymbolList) {
 				cs.Fail("vector/depends-on-receiver", core.W{"word": fmt.Sprintf("%04x", vw), "fresh": vdump(sv), "into_used_receiver": vdump(reuse), "error": errStr(err)})
 				return
@@ -236,6 +239,7 @@ func runC16(c *core.Ctx) {
 				cs.Fail("vector/value-roundtrip", core.W{"value": vdump(fresh), "octets": mon.Hex(fo, 4)})
 				return
 			}
+			scribbleOwned(fo)
 		}
 		cs.Eval(8 << 8)
 		cs.DistinctN(4 << 8)
@@ -314,6 +318,7 @@ func runC16(c *core.Ctx) {
 					cs.Fail("delta/small-reencode", core.W{"octet": v, "reencoded": mon.Hex(out, 4), "error": errStr(err)})
 					return
 				}
+				scribbleOwned(out) // the result is the caller's: it may overwrite it and append into its spare capacity
 				v2 := rtcp.RecvDelta{Type: 1, Delta: int64(v) * 250}
 				o2, e2 := v2.Marshal()
 				var d2 rtcp.RecvDelta
@@ -321,6 +326,7 @@ func runC16(c *core.Ctx) {
 					cs.Fail("delta/small-value-roundtrip", core.W{"value": vdump(v2)})
 					return
 				}
+				scribbleOwned(o2)
 			}
 			cs.Eval(4 * 256)
 			cs.DistinctN(256)
@@ -342,6 +348,7 @@ func runC16(c *core.Ctx) {
 				cs.Fail("delta/large-reencode", core.W{"word": fmt.Sprintf("%04x", w), "reencoded": mon.Hex(out, 4), "error": errStr(err)})
 				return
 			}
+			scribbleOwned(out)
 			v2 := rtcp.RecvDelta{Type: 2, Delta: int64(int16(w)) * 250}
 			o2, e2 := v2.Marshal()
 			var d2 rtcp.RecvDelta
@@ -349,6 +356,7 @@ func runC16(c *core.Ctx) {
 				cs.Fail("delta/large-value-roundtrip", core.W{"value": vdump(v2)})
 				return
 			}
+			scribbleOwned(o2)
 		}
 		cs.Eval(4 << 8)
 		cs.DistinctN(1 << 8)
@@ -637,4 +645,13 @@ func runC16(c *core.Ctx) {
 		cs.Eval(2 << 16)
 		cs.DistinctN(1 << 16)
 	})
+}
+
+// scribbleOwned does what a caller may do with a result it owns: overwrite its octets and write
+// into its spare capacity (as an append does). Nothing a later call returns may depend on it.
+func scribbleOwned(b []byte) {
+	b = b[:cap(b)]
+	for i := range b {
+		b[i] = b[i]*167 + 13
+	}
 }
